@@ -5,7 +5,9 @@ import os
 HERE = os.path.dirname(os.path.abspath(__file__))
 ALLINV = ["TypeOK", "DerivedWithinPieces", "EntryWithinTruth"]
 ALLPROP = ["ATTLShown", "AHandDown", "ANoExpiredPiece", "ADerivedShown", "AADOnlyValidated", "ACoveredOnly", "APieceFoldsSoa"]
-STATE_FORM = {"ATTLShown": "TTLShown", "AHandDown": "HandDown", "ANoExpiredPiece": "NoExpiredPiece", "ADerivedShown": "DerivedShown",
+RACEPROP = ["ANoQuarantinedSynthesis"]   # the lookup-in-flight dimension (Race = TRUE configs)
+STATE_FORM = {"ANoQuarantinedSynthesis": "NoQuarantinedSynthesis", "ANoStaleSnapshotDenial": "NoStaleSnapshotDenial",
+              "ATTLShown": "TTLShown", "AHandDown": "HandDown", "ANoExpiredPiece": "NoExpiredPiece", "ADerivedShown": "DerivedShown",
               "AADOnlyValidated": "ADOnlyValidated", "ACoveredOnly": "CoveredOnly", "APieceFoldsSoa": None}
 
 
@@ -14,7 +16,8 @@ def tla_set(xs):
 
 
 def cfg(name, questions, pieces=("p1", "p2", "p3"), lifetimes=(2, 5), steps=(1, 3), routes=("srv", "get"), maxclock=7, maxgen=3,
-        secure=True, mutant="none", invs=None, props=None, view=True, sim=False):
+        secure=True, mutant="none", invs=None, props=None, view=True, sim=False,
+        kind="nsec", race=False, maxborn=0, targets=()):
     invs = ALLINV if invs is None else invs
     props = ALLPROP if props is None else props
     out = ["CONSTANTS",
@@ -30,6 +33,10 @@ def cfg(name, questions, pieces=("p1", "p2", "p3"), lifetimes=(2, 5), steps=(1, 
            "  MaxGen = %d" % maxgen,
            "  Secure = %s" % ("TRUE" if secure else "FALSE"),
            '  Mutant = "%s"' % mutant,
+           '  Kind = "%s"' % kind,
+           "  Race = %s" % ("TRUE" if race else "FALSE"),
+           "  MaxBorn = %d" % maxborn,
+           "  Targets = " + tla_set(targets),
            "INIT Init", "NEXT Next", "CHECK_DEADLOCK FALSE"]
     if sim:
         # simulation: every state is evaluated, the predicates are plain invariants
@@ -68,5 +75,31 @@ for name, mutant, invs, props, secure in NEG:
     cfg(name, Q3, mutant=mutant, invs=invs, props=props, secure=secure)
 # simulation configs for the replay (one per zone family: the classes its catalogue realises)
 cfg("Sim_Nsec.cfg", ["ND1", "NX1", "ND2", "NX2", "NX12", "ND3", "NX3", "NX23"], lifetimes=(2, 5, 9), steps=(1, 2, 4), maxclock=40, maxgen=12, sim=True)
-cfg("Sim_Nsec3.cfg", ["ND1", "NX1", "ND2", "ND3", "NX12", "NX13", "NX123"], lifetimes=(2, 5, 9), steps=(1, 2, 4), maxclock=40, maxgen=12, sim=True)
+cfg("Sim_Nsec3.cfg", ["ND1", "NX1", "ND2", "ND3", "NX12", "NX13", "NX123"], lifetimes=(2, 5, 9), steps=(1, 2, 4), maxclock=40, maxgen=12, sim=True,
+    kind="nsec3")
 cfg("Sim_Insecure.cfg", ["ND1", "NX1", "NX12"], lifetimes=(2, 5), steps=(1, 2), maxclock=12, maxgen=6, secure=False, sim=True)
+
+# ---- Race = TRUE: lookups in flight (snapshot .. quarantine re-check .. shaping), zone changes, NSEC3 conflict quarantine
+RQ = ["ND1", "NX1", "NX12"]
+RACE = dict(pieces=("p1", "p2"), lifetimes=(2, 5), steps=(1, 3), maxclock=5, maxgen=3, race=True, maxborn=1, targets=("flight", "other"))
+RINV = ALLINV + ["QuarantineEmptiesRing"]
+QRACE = dict(RACE, steps=(2,), maxclock=4)       # quick: 1.3e5 distinct states each; thorough: 1.3e6
+cfg("MC_Race3.cfg", ["ND1", "NX12"], kind="nsec3", invs=RINV, props=ALLPROP + RACEPROP, **QRACE)
+cfg("MC_RaceNsec.cfg", ["ND1", "NX12"], kind="nsec", invs=RINV, props=ALLPROP + RACEPROP, **QRACE)
+cfg("MC_Race3Full.cfg", RQ, kind="nsec3", invs=RINV, props=ALLPROP + RACEPROP, **RACE)
+cfg("MC_RaceNsecFull.cfg", RQ, kind="nsec", invs=RINV, props=ALLPROP + RACEPROP, **RACE)
+# as built and documented, not demanded: an NSEC lookup in flight answers from its snapshot although the RRset it rests on
+# has meanwhile been replaced (NSEC has no quarantine; the lookup linearises at the capture) -- this config MUST be refuted
+# (for NSEC3 the same is reachable only through a Purge between the capture and the conflicting admission)
+cfg("MC_RaceNsecStale.cfg", RQ, kind="nsec", invs=[], props=["ANoStaleSnapshotDenial"], **RACE)
+# negative twins.  The seeded change C02-r3-1 (the re-check skips NSEC3 selections); targets = flight only, so that the
+# counter-example denies the very name/type whose creation caused the quarantine: once a type added at a NODATA name ...
+NR = dict(RACE, targets=("flight",))
+cfg("MC_NegRecheckType.cfg", ["ND1", "NX12"], kind="nsec3", mutant="recheckSkipsNsec3", invs=[], props=["ANoQuarantinedSynthesis"], **NR)
+# ... once the NXDOMAIN name itself created
+cfg("MC_NegRecheckName.cfg", ["NX1", "NX12"], kind="nsec3", mutant="recheckSkipsNsec3", invs=[], props=["ANoQuarantinedSynthesis"], **NR)
+cfg("MC_NegQuarKeepsRing.cfg", RQ, kind="nsec3", mutant="quarKeepsRing", invs=["QuarantineEmptiesRing"], props=[], **RACE)
+SR = dict(pieces=("p1", "p2", "p3"), lifetimes=(2, 5), steps=(1, 2), maxclock=14, maxgen=8, race=True, maxborn=1, targets=("flight", "other"),
+          sim=True, props=ALLPROP + ["ANoQuarantinedSynthesis"], invs=ALLINV + ["QuarantineEmptiesRing"])
+cfg("Sim_Race_Nsec3.cfg", ["ND1", "NX1", "ND2", "NX12"], kind="nsec3", **SR)
+cfg("Sim_Race_Nsec.cfg", ["ND1", "NX1", "ND2", "NX12"], kind="nsec", **SR)
